@@ -83,6 +83,9 @@ where
             {
                 return_current!()
             }
+            // an open transaction that was never asked to commit ends with its iteration: nothing
+            // is carried over into the next one
+            StreamElement::Terminate | StreamElement::FlushAndRestart => self.w = None,
             StreamElement::Item(_) => panic!(
                 "Non timestamped streams are not currently supported with transaction windows!"
             ),
